@@ -52,6 +52,39 @@ Section Cap.
   Proof. intros F. destruct (inv_run ops ms_init inv_init F) as (A & B & C). split; [exact A|]. rewrite A. exact C. Qed.
 End Cap.
 
+(* the same invariant against the allowance rounded down to whole lots (what the property names): needs the lot size of the calls on k *)
+Definition governed_lots (k : nat) (v pct lot : Q) (op : mop) : Prop :=
+  governed k v pct op /\ match op with MUpdate => True | MMatch k' a => k' = k -> i_lot (a_i a) = lot end.
+Section CapLots.
+  Variables (k : nat) (v pct lot : Q).
+  Notation RL := (qmul (zq (Qfloor (qdiv (zq (qround_even (qmul v pct))) lot))) lot).
+  Definition InvL (s : mstate) : Prop :=
+    fills_of k (ms_fills s) == tget (ms_turnover s) k /\ 0 <= tget (ms_turnover s) k /\ tget (ms_turnover s) k <= Qmax 0 RL.
+  Lemma invl_init : InvL ms_init.
+  Proof. unfold InvL, ms_init. cbn. split; [reflexivity|]. split; [lra|]. apply Q.le_max_l. Qed.
+  Lemma invl_step s op : InvL s -> governed_lots k v pct lot op -> InvL (mstep s op).
+  Proof.
+    intros (A & B & C) [G GL]. destruct op as [|k' a]; [apply invl_init|].
+    cbn [mstep]. destruct (run_match (tget (ms_turnover s) k') a) as [| | |price qty ct rc] eqn:M; try (split; [|split]; assumption).
+    unfold InvL. cbn [ms_turnover ms_fills fills_of].
+    destruct (Nat.eqb k k') eqn:E.
+    - apply Nat.eqb_eq in E. subst k'. cbn [governed] in G. destruct (G eq_refl) as (VL & PC & EV & HU & HL). specialize (GL eq_refl).
+      unfold run_match in M.
+      destruct (fill_quantity_shape _ _ _ _ _ _ _ _ _ _ _ _ _ _ _ _ M HU HL) as (P & _ & _ & _).
+      pose proof (fill_within_lot_cap _ _ _ _ _ _ _ _ _ _ _ _ _ _ _ _ M HL VL v EV) as CAP. unfold lot_cap in CAP. rewrite PC, GL in CAP.
+      rewrite tget_tadd_same. split; [rewrite A; lra|]. split; [lra|].
+      eapply Qle_trans; [exact CAP|]. apply Q.le_max_r.
+    - assert (N : k <> k') by (intro; subst; rewrite Nat.eqb_refl in E; discriminate).
+      rewrite (tget_tadd_other _ _ _ _ N). split; [|split]; assumption.
+  Qed.
+  Lemma invl_run ops : forall s, InvL s -> Forall (governed_lots k v pct lot) ops -> InvL (fold_left mstep ops s).
+  Proof. induction ops as [|op ops IH]; intros s I F; cbn [fold_left]; [exact I|].
+    inversion F as [|? ? G F']; subst. apply IH; [apply invl_step; assumption|assumption]. Qed.
+  Theorem total_fills_per_bar_lots ops : Forall (governed_lots k v pct lot) ops ->
+    fills_of k (ms_fills (mrun ops)) <= Qmax 0 RL.
+  Proof. intros F. destruct (invl_run ops ms_init invl_init F) as (A & B & C). rewrite A. exact C. Qed.
+End CapLots.
+
 (* the bookkeeping the correspondence replays is the model's: after a filled call the turnover is the old one plus the fill *)
 Lemma mstep_turnover s k a : tget (ms_turnover (mstep s (MMatch k a))) k ==
   tget (ms_turnover s) k + match run_match (tget (ms_turnover s) k) a with Filled _ q _ _ => q | _ => 0 end.
